@@ -283,6 +283,38 @@ Theorem C03_replay_block_upto_responder sc1 sc2 tA hash txs j tg tw tBw :
   gk_height tBw = gk_height tw /\ w_height tBw = w_height tw /\ cfg tBw = cfg tw.
 Proof. exact (replay_block_upto_responder sc1 sc2 tA hash txs j tg tw tBw). Qed.
 
+(* the responder's pass of the replay: same tables / gatekeeper map / index / empty reorged set at its start, memos that
+   differ but are sound, rejections stable between the two scripts: equal up to the stamp of unconfirmed trackers *)
+Theorem C03_responder_replay le sc1 sc2 tA tB b h tA' tB' :
+  mem_eq tA tB -> reorged tA = [] -> r_index tB = r_index tA ->
+  memo_sound sc1 tA -> memo_sound sc2 tB -> rej_stable tA sc1 sc2 ->
+  r_block_connected le sc1 tA b h = Ok tt tA' -> r_block_connected le sc2 tB b h = Ok tt tB' ->
+  eq_up_to_stamp (db_of tB') (db_of tA').
+Proof. exact (responder_replay le sc1 sc2 tA tB b h tA' tB'). Qed.
+
+(* REPLAY EQUIVALENCE OF A BLOCK (operation level).  t reachable, at a poll boundary; OConnect with the node answering
+   sc1, killed when ng + j statements of its durable trace (CrashOps.op_stmts) are done: ng = the gatekeeper's (0 or 1),
+   j <= the watcher's tracker inserts, i.e. anywhere from the purge's commit to just before the watcher's DELETE;
+   restart; OConnect of the same block with the node answering sc2.  Outside the recorded class (replay_ok) and with
+   stable rejections (rej_stable): the tables are those of the uninterrupted run up to the stamp of unconfirmed
+   trackers.  (Kills before the purge's commit and inside the responder's own statements: not covered.) *)
+Theorem C03_replay_connect le t hash txs sc1 sc2 j tg :
+  Inv t -> at_poll_boundary t ->
+  not_abort (snd (step le t (OConnect hash txs) sc1)) ->
+  gk_block_connected (TowerProofs.fresh t) (gk_height t + 1) = Ok tt tg ->
+  (j <= length (w_inserts sc1 tg txs))%nat ->
+  let ng := length (stmts_of (tr_gk_block (TowerProofs.fresh t) (gk_height t + 1))) in
+  let d := execs (db_of t) (firstn (ng + j) (op_stmts le t (OConnect hash txs) sc1)) in
+  replay_ok tg d txs sc1 sc2 -> rej_stable t sc1 sc2 ->
+  not_abort (snd (step le (restart t d) (OConnect hash txs) sc2)) ->
+  eq_up_to_stamp (db_of (fst (step le (restart t d) (OConnect hash txs) sc2))) (db_of (fst (step le t (OConnect hash txs) sc1))).
+Proof. exact (replay_connect le t hash txs sc1 sc2 j tg). Qed.
+
+(* every crash index k of the operation is such a statement index *)
+Theorem C03_crash_index_is_statement_index le t o sc k :
+  exists n, crash_at le k t o sc = execs (db_of t) (firstn n (op_stmts le t o sc)).
+Proof. unfold crash_at, op_stmts. destruct (stmts_firstn (op_micro le t o sc) k) as [n Hn]. exists n. rewrite Hn. reflexivity. Qed.
+
 (* multi-block polls: the last known block is written after the listeners of ALL blocks (Gen/Bootstrap), so a kill in
    block i has blocks 1..i-1 delivered again: the watcher's pass over a block it had COMPLETED changes nothing *)
 Theorem C03_watcher_replay_completed sc1 sc2 tA tB hash txs h tA' tB' :
@@ -398,6 +430,29 @@ Example C03_ex_replay :
   node_status ex_sc1 ex_t 9 = InMempoolSince 120 /\ node_status ex_sc2 ex_t 9 = IrrevocablyResolved.
 Proof. split; [exact ex_scripts_consistent|]. split; [exact ex_t_boundary|]. vm_compute. repeat split; reflexivity. Qed.
 
+(* the hypotheses of C03_replay_connect hold on the example (kill after the tracker INSERT: j = 1; the penalty confirmed
+   while down: replay_ok through its second disjunct), so its conclusion applies *)
+Example C03_ex_replay_connect :
+  eq_up_to_stamp
+    (db_of (fst (step true (restart ex_t (execs (db_of ex_t) (firstn (0 + 1) (op_stmts true ex_t ex_block ex_sc1)))) ex_block ex_sc2)))
+    (db_of (fst (step true ex_t ex_block ex_sc1))).
+Proof.
+  apply (C03_replay_connect true ex_t 5000 [7] ex_sc1 ex_sc2 1 (set_gk_height (TowerProofs.fresh ex_t) 121)).
+  - exact ex_t_inv.
+  - exact ex_t_boundary.
+  - vm_compute. exact I.
+  - vm_compute. reflexivity.
+  - vm_compute. apply le_n.
+  - intros a p Hin Hl Hd Hi. right.
+    assert (Ha : a = mk_app 7 1 (mk_blob 7 (Some 9) 4100) 20 1 120 \/ a = mk_app 8 2 (mk_blob 8 (Some 19) 100) 20 2 120).
+    { revert Hin. vm_compute. intros [H|[H|[]]]; [left|right]; symmetry; exact H. }
+    destruct Ha as [-> | ->].
+    + vm_compute in Hd. inversion Hd; subst p. vm_compute. repeat split; reflexivity.
+    + exfalso. revert Hl. vm_compute. intros [H|[]]; discriminate H.
+  - intros tx. unfold ex_sc1, ex_sc2, script_get. cbn [aget]. destruct (N.eqb tx 9); vm_compute; reflexivity.
+  - vm_compute. exact I.
+Qed.
+
 (* resubmission after a lost reply on the example tower: hypotheses of C03_add_resubmission_reply_lost *)
 Example C03_ex_resubmission :
   let o := OAdd (Some 2) 9 (mk_blob 9 (Some 29) 2049) 20 4 in
@@ -435,3 +490,6 @@ Print Assumptions C03_add_resubmission_reply_lost.
 Print Assumptions C03_add_resubmission_in_window_refuted.
 Print Assumptions C03_watcher_replay_completed.
 Print Assumptions C03_lkb_written_after_all_blocks.
+Print Assumptions C03_responder_replay.
+Print Assumptions C03_replay_connect.
+Print Assumptions C03_crash_index_is_statement_index.
